@@ -376,13 +376,17 @@ func (ctx *CheckerContext) safeSizesInfoSizeof(typ types.Type) (size int64, ok b
 func resolvePkgObjects(ctx *Context, f *ast.File) {
 	ctx.PkgObjects = make(map[*types.PkgName]string, len(f.Imports))
 
+	// An import that did not type-check (malformed path, missing package)
+	// has no package name object: it is skipped, not a reason to crash.
 	for _, spec := range f.Imports {
 		if spec.Name != nil {
-			obj := ctx.TypesInfo.ObjectOf(spec.Name)
-			ctx.PkgObjects[obj.(*types.PkgName)] = spec.Name.Name
+			if obj, ok := ctx.TypesInfo.ObjectOf(spec.Name).(*types.PkgName); ok {
+				ctx.PkgObjects[obj] = spec.Name.Name
+			}
 		} else {
-			obj := ctx.TypesInfo.Implicits[spec]
-			ctx.PkgObjects[obj.(*types.PkgName)] = obj.Name()
+			if obj, ok := ctx.TypesInfo.Implicits[spec].(*types.PkgName); ok {
+				ctx.PkgObjects[obj] = obj.Name()
+			}
 		}
 	}
 }
